@@ -13,7 +13,9 @@
 // hooks only perturb timing). Stage T-learned (learned.go): the same churn
 // among routers whose router subsystem is alive - real announcements and
 // disconnect pings over the real links between establishment and close - so
-// that the tables hold learned routes when links go. At every quiescent point
+// that the tables hold learned routes when links go. Stage T-slow (slow.go):
+// set-ups accepted by real listeners (TCP, setup workers) whose remote holds
+// its set-up messages back for up to the cap of the tier. At every quiescent point
 // the real registry (by-peer, by-label, GetLinks, routing table) is recorded
 // and judged by TLC (LinkRegistry_Trace).
 package main
@@ -71,6 +73,7 @@ type sched struct {
 	free     bool                         // pass-through: nothing blocks any more
 	setupGid map[*peering.LinkBase]string // the goroutine running each link's set-up
 	perturb  *rand.Rand                   // when set, gates do not block but sleep a little (stage T)
+	inClose  map[*peering.LinkBase]bool   // links whose Close has won the flag and whose RemoveLink has not returned
 }
 
 func newSched() *sched {
@@ -79,8 +82,26 @@ func newSched() *sched {
 	return s
 }
 
+// closesUnderWay: Close calls between the closing flag and the return of RemoveLink. Such a link is "closing" for
+// everybody and still in the tables: no quiescent point (under the race detector on a busy machine the goroutine of a
+// link's reader can be held up there for longer than the moment the quiescence test waits).
+func (s *sched) closesUnderWay() int {
+	s.mu.Lock()
+	defer s.mu.Unlock()
+	return len(s.inClose)
+}
+
 func (s *sched) hook(l *peering.LinkBase, point string) {
 	s.mu.Lock()
+	switch point {
+	case "closing":
+		if s.inClose == nil {
+			s.inClose = map[*peering.LinkBase]bool{}
+		}
+		s.inClose[l] = true
+	case "removed":
+		delete(s.inClose, l)
+	}
 	if s.perturb != nil {
 		d := s.perturb.Intn(4)
 		s.mu.Unlock()
@@ -242,7 +263,9 @@ var underivableID *m.Address
 
 func underivable() *m.Address {
 	for n := 64; underivableID == nil; n += 64 {
-		for _, id := range mesh.Identities(n)[n-64:] {
+		// all of them: Identities sorts by address, so the last 64 are not the 64 new ones (looking only at those made
+		// the search take minutes - or the whole time budget - in some runs)
+		for _, id := range mesh.Identities(n) {
 			if _, ok := m.DeriveSwitchLabelFromIP(id.IP); !ok && underivableID == nil {
 				underivableID = id
 			}
@@ -870,9 +893,15 @@ type origin struct {
 }
 
 func run0(c *vf.Ctx) {
-	c.Rule("M: TLC exhaustive on LinkRegistry: cross-connect of 2 routers (2 and 3 connections), 3 routers with a label race (3 and, thorough, 4 connections), every step of set-up and close of every link interleaved; the registry as first written must be refuted. R: a path cover of the complete state graph of the cross shape (quick: the 160 paths with most refusals/closes + seeded sample; thorough: all) and TLC simulation walks of the 3-router shape are enforced on real goroutines by blocking hooks at the model's action boundaries; at every quiescent state the real by-peer/by-label tables, GetLink/GetLinkByLabel/GetLinks and the routing table are recorded. T: seeded churn (connect, simultaneous cross-connect, close local/remote, broken connection) among 2..5 routers without gates, timing perturbed inside the hooks. T-learned: the churn among 3..5 routers that announce themselves and send disconnect pings over their real links between establishment and close (real handlers write peer, gossip routes and remove them), ending with every link closed. All snapshots judged by TLC. distinct = distinct enforced behaviours + churn rounds")
-	c.Assume("in-memory connections; a close in the middle of a set-up only comes from the set-up itself")
+	c.Rule("M: TLC exhaustive on LinkRegistry: cross-connect of 2 routers (2 and 3 connections), 3 routers with a label race (3 and, thorough, 4 connections), every step of set-up and close of every link interleaved; the registry as first written must be refuted; with a set-up deadline for accepted connections that may close a link whose set-up has read its last message (DeadlineClose): holds when AddLink is not done for such a link, refuted when the set-up goes on regardless. R: a path cover of the complete state graph of the cross shape (quick: the 160 paths with most refusals/closes + seeded sample; thorough: all) and TLC simulation walks of the 3-router shape are enforced on real goroutines by blocking hooks at the model's action boundaries; at every quiescent state the real by-peer/by-label tables, GetLink/GetLinkByLabel/GetLinks and the routing table are recorded. T: seeded churn (connect, simultaneous cross-connect, close local/remote, broken connection) among 2..5 routers without gates, timing perturbed inside the hooks. T-learned: the churn among 3..5 routers that announce themselves and send disconnect pings over their real links between establishment and close (real handlers write peer, gossip routes and remove them), ending with every link closed. T-slow: routers listen on real TCP sockets (ListenerBase, setup workers - the accepting set-up, which no other stage runs); the driver is the remote end of every accepted connection, relays to a real dialling router and holds one of its set-up messages (mostly the ack; whole or all but its last bytes) back for a seeded time between nothing and the cap of the tier (quick 13-15 s, thorough 38-44 s) or for good; the listeners' set-up goroutines are put to sleep for up to 50 ms at their calls into the router instance; when a listener hung up on its own during a hold, a second round of remotes aims the last byte of the ack at that deadline minus 0.2-15 ms (some shortly after it); records when all set-ups have ended and after every link was closed. All snapshots judged by TLC. distinct = distinct enforced behaviours + churn rounds")
+	c.Assume("in-memory connections (stage T-slow: loopback TCP at the listening end); in stages M and R a close in the middle of a set-up only comes from the set-up itself")
 	world.InstallLogCapture()
+	if os.Getenv("VERIF_C16_ONLY") == "slow" { // development aid: this stage alone (never a complete check)
+		sevs, sorg := slowStage(c, rand.New(rand.NewSource(c.Seed)))
+		judge(c, sevs, sorg)
+		c.Broken("VERIF_C16_ONLY is set: only stage T-slow was run")
+		return
+	}
 	if os.Getenv("VERIF_C16_ONLY") == "learned" { // development aid: this stage alone (never a complete check)
 		levs, lorg := learnedStage(c, rand.New(rand.NewSource(c.Seed)))
 		judge(c, levs, lorg)
@@ -1071,6 +1100,13 @@ func run0(c *vf.Ctx) {
 	allEvents = append(allEvents, levs...)
 	origins = append(origins, lorg...)
 
+	// ---- T-slow: set-ups that come in through listeners (setup workers) and take long: the remote holds its messages
+	// back for milliseconds up to the cap of the tier or for good, set-up goroutines lose the CPU for a moment, remotes aim
+	// at a deadline the listeners showed
+	sevs, sorg := slowStage(c, rng)
+	allEvents = append(allEvents, sevs...)
+	origins = append(origins, sorg...)
+
 	// ---- registry functions frozen at their calls into a link while the link is closed
 	for _, ev := range yieldStage(c) {
 		tag := fmt.Sprint(ev.(map[string]any)["tag"])
@@ -1258,7 +1294,7 @@ func churn(c *vf.Ctx, rng *rand.Rand, n, ops int) (events []any) {
 		deadline := time.Now().Add(3 * time.Second)
 		for {
 			live := map[peering.Link]*world.Node{}
-			q := asyncCloses.Load() == 0
+			q := asyncCloses.Load() == 0 && s.closesUnderWay() == 0
 			for _, k := range conns {
 				if k.ra == nil {
 					select {
@@ -1292,7 +1328,7 @@ func churn(c *vf.Ctx, rng *rand.Rand, n, ops int) (events []any) {
 			if q {
 				// stable for a moment?
 				time.Sleep(3 * time.Millisecond)
-				stable := true
+				stable := s.closesUnderWay() == 0
 				for l := range live {
 					if l.IsClosing() {
 						stable = false
